@@ -16,7 +16,7 @@ EXTENDS Integers, Sequences, FiniteSets, TLC
 
 CONSTANTS Behaviors,  \* extra behaviors, e.g. {"A","B"}
           MaxOps,     \* max number of switch calls made while handling one message
-          MaxRestarts,\* how often PID.Restart may be called from outside (0 = never)
+          MaxRestarts,\* how often the actor may be restarted (PID.Restart from outside, or panic + Restart directive); 0 = never
           Defects     \* {} = repaired design; "UnBecomePushes" = resetBehavior only pushes Receive
 
 VARIABLES stack,      \* implementation: linked nodes, top first
@@ -65,6 +65,23 @@ Restart ==
   /\ cur' = "none" /\ nops' = 0
   /\ last' = [op |-> "Restart", b |-> "", h |-> "none"]
 
+\* ---- the behavior handling the current message panics; the supervisor's directive is Restart:
+\* recovery -> notifyParent suspends the actor and tells the parent, handlePanicking ->
+\* handleRestartDirective -> restartChild -> Restart -> restartSubtree.  The actor is SUSPENDED,
+\* not running, so restartSubtree skips the embedded Shutdown (no reset(), the stack is NOT
+\* cleared there): only resetBehavior() stands between the pre-failure behaviors and the
+\* restarted actor
+Crash ==
+  /\ cur # "none"
+  /\ nres < MaxRestarts
+  /\ nres' = nres + 1
+  /\ IF "UnBecomePushes" \in Defects
+     THEN stack' = Push(stack, Default) /\ len' = len + 1     \* the code as found
+     ELSE stack' = <<Default>> /\ len' = 1                    \* resetBehavior: Reset(); Push(actor.Receive)
+  /\ ideal' = <<Default>>
+  /\ cur' = "none" /\ nops' = 0
+  /\ last' = [op |-> "Crash", b |-> "", h |-> cur]
+
 InHandler == cur # "none" /\ nops < MaxOps
 
 \* ---- setBehavior: Reset(); Push(b)
@@ -110,6 +127,7 @@ Next == \/ Deliver
         \/ UnBecomeStacked
         \/ UnBecome
         \/ Restart
+        \/ Crash
 
 Spec == Init /\ [][Next]_vars
 
@@ -119,9 +137,10 @@ HandlerIsIdealTop == [][last'.op = "Deliver" => last'.h = Top(ideal)]_vars
 \* stronger, state-based: the implementation stack IS the documented stack
 Refines == stack = ideal
 \* the message being handled finishes under the behavior that started it
-FinishesUnderStarter == [][last'.op \notin {"Deliver", "Restart"} => (cur' = cur /\ last'.h = cur)]_vars
-\* a restarted actor handles its next message with the default behavior
-RestartRestoresDefault == [][last'.op = "Restart" => Top(stack') = Default]_vars
+FinishesUnderStarter == [][last'.op \notin {"Deliver", "Restart"} => (last'.h = cur /\ (last'.op # "Crash" => cur' = cur))]_vars
+\* a restarted actor (explicit Restart, or restarted by its supervisor after a panic) handles its
+\* next message with the default behavior and has nothing else on its stack
+RestartRestoresDefault == [][last'.op \in {"Restart", "Crash"} => stack' = <<Default>>]_vars
 \* the separate length counter is the number of linked nodes
 WellFormed == len = Len(stack)
 \* the default behavior is never lost while something is stacked on it ... unless popped explicitly
